@@ -18,10 +18,10 @@ def run(db, res, tier):
   n = r_cap.check_allocations(res, scope, det)
   check_compaction(db, res)  # active-DOF capacity (sequential counter form)
   nsurv = sum(r_cap.check_counter_survives_to_detector(res, db, e) for e in ("forward.step", "forward.forward"))
-  res.floor("allocation -> detector survival obligations", nsurv, 10)
+  res.floor("allocation -> detector survival obligations", nsurv, 100)
   res.floor("slot allocations", n, 60)
   res.floor("overflow detectors (counters)", len(det), 5)
-  res.rule_text = "R-CAP: for every slot = atomic_add(counter, n) whose result indexes or addresses an array: (O1) a dominating comparison bounds the slot by a capacity (or the allocation is tabled as bounded by construction); (O2) the surviving condition is equivalent to slot + n <= cap, so a block that fits exactly is not dropped; (O3) a statement that sets an overflow bit compares the same counter with the same capacity; (O3b) on the ordered trace of step()/forward() a counter that is checked after the fact is not re-initialised between an allocating launch and the detector"
+  res.rule_text = "R-CAP: for every slot = atomic_add(counter, n) whose result indexes or addresses an array: (O1) a dominating comparison bounds the slot by a capacity (or the allocation is tabled as bounded by construction); (O2) the surviving condition is equivalent to slot + n <= cap, so a block that fits exactly is not dropped; (O3) a statement that sets an overflow bit compares the same counter with the same capacity; (O3b) on the ordered trace of step()/forward() a counter that is checked after the fact is not re-initialised between an allocating launch and the detector; (O3c) under every single disable/enable flag an allocating launch that stays reachable is followed by a detector launch that stays reachable"
   res.explanation = (
     "Decides the first half of C16 structurally: no constraint row / Jacobian non-zero / contact / broadphase pair / CCD or flex candidate block can be "
     "dropped by a capacity guard without an overflow bit being derivable from the same counter, and no guard is stricter than the capacity (exact-fit loss). "
